@@ -176,6 +176,9 @@ var c01Templates = []diffTmpl{
 	{"local function f(...) return ... end; emit(f(x + 1, y * 2), (f(x, y)))", "num"},
 	{"local a = x; local function f() a = a + y; return a end; emit(f(), f(), a)", "num"},
 	{"emit(2 ^ 2, x ^ 2, 7 % 3, -7 % 3, 7 % -3, x - x, 1 / 2)", "num"},
+	// run-time % on integer operands (exact remainder semantics in the solver): sign rule, exact multiples, zero
+	{"emit(x % 3, x % -3, y % 1, z % -1)", "int"},
+	{"local a = x; local t = {k = a % 4}; emit(t.k, -6 % 3, 6 % -3, 0 % -3); local function m(p, q) return p % q end; emit(m(y, 7), m(z, -7))", "int"},
 	// relational in value and condition context, both polarities
 	{"emit(x < y, x <= y, x > y, x >= y, x == y, x ~= y)", "num"},
 	{"if x < y then emit(1) else emit(2) end; if not (x <= y) then emit(3) end; if x == y then emit(4) elseif x > z then emit(5) end", "num"},
@@ -301,7 +304,7 @@ func c01Inputs(kind string) []diffInput {
 
 // C01.tmpl — whole-pipeline differential against R-lua.
 //
-//verif:harness prop=C01 tier=quick bounds="85 program templates organised by compiler special case (multiple assignment shapes, destination kinds, relational/logical contexts, loops, goto, tables, closures, varargs, errors, coercions); inputs: 3 symbolic float64 / 3 symbolic 32-bit integers / 2 values of any scalar type"
+//verif:harness prop=C01 tier=quick bounds="87 program templates organised by compiler special case (multiple assignment shapes, destination kinds, relational/logical contexts, loops, goto, tables, closures, varargs, errors, coercions); inputs: 3 symbolic float64 / 3 symbolic 32-bit integers / 2 values of any scalar type"
 func H_C01_tmpl() {
 	t := c01Templates[VChoice(len(c01Templates))]
 	diffRun(t.src, t.src, c01Inputs(t.kind), Options{})
